@@ -70,10 +70,13 @@ def epochs_of(h, im):
     """the switch epochs of the history machine at the image: the first nrec write ops grouped by the first nsw log switches
     (F, D, and FB when no flush is held; FE/F/D end a held flush)"""
     eps, cur, nw, ns, held = [], [], 0, 0, False
+    missing = set(im.get("missing") or [])
     for i, op in enumerate(h["ops"]):
         k = op["k"]
         if k == "W":
-            if nw < im["nrec"]:
+            if i in missing:
+                cur.append(i)  # slot taken, record not on disk yet
+            elif nw < im["nrec"]:
                 cur.append(i)
                 nw += 1
         elif k in ("F", "D") or (k == "FB" and not held):
@@ -102,9 +105,10 @@ def image_coq(h, im, parent_parts):
     if im.get("tie") and im["sub"] < 0:
         eps, nw, ns = epochs_of(h, im)
         if nw == im["nrec"] and ns == im["nsw"]:
-            tie = "(Some (mkct %s %d%%nat %s))" % (parts_coq(eps), im["nj"], coq_list(["%d%%nat" % p for p in im.get("gone") or []]))
+            tie = "(Some (mkct %s %d%%nat %s %s))" % (parts_coq(eps), im["nj"], coq_list(["%d%%nat" % p for p in im.get("gone") or []]),
+                                                      coq_list(["%d%%nat" % p for p in im.get("missing") or []]))
         else:
-            tie = "(Some (mkct [] 0%nat []))"  # bookkeeping impossible for the op list: reported as a tie failure
+            tie = "(Some (mkct [] 0%nat [] []))"  # bookkeeping impossible for the op list: reported as a tie failure
     return "mkci %d%%nat %s %s %s %s %s" % (im["acked"], infl, coq_list(post), coq_list(chain), tie, obs)
 
 
@@ -273,7 +277,7 @@ def main(ck):
     except (OSError, ValueError, KeyError):
         pass
     ck.coq_audit(["C01"])
-    ok = ck.coq_build(["C01/Proofs.vo", "C01/Proofs2.vo", "C01/Proofs3.vo", "C01/Proofs4.vo", "C01/Proofs5.vo", "C01/Corr.vo"])
+    ok = ck.coq_build(["C01/Proofs.vo", "C01/Proofs2.vo", "C01/Proofs3.vo", "C01/Proofs4.vo", "C01/Proofs5.vo", "C01/ProofsC.vo", "C01/Corr.vo"])
     if ok:
         ck.coq_props(["C01/Props.v", "C01/Refuted.v"])
     binp = ck.go_build("./cmd/c01", "c01")
@@ -311,8 +315,9 @@ def main(ck):
                 ck.nofail_detail = {"kind": "history-aborted", "why": h["crash"][:600], "case": h["case"], "nwal": h["nwal"], "nser": h["nser"],
                                     "nmst": h.get("nmst", 1), "pre": h.get("pre", 0), "auto": h.get("auto", False), "async": h.get("async", False), "ops": h["ops"]}
         if h.get("tie_err"):
-            ck.broken.append("correspondence C01 (flush protocol: a flush removes exactly the log files of the epoch it switched - "
-                             "model wstep WRemove / C01_recovery_exact): history %d: %s" % (h["case"], h["tie_err"][:300]))
+            ck.broken.append("correspondence C01 (log protocol: a flush removes exactly the log files of the epoch it switched - model wstep "
+                             "WRemove / C01_recovery_exact; no request is acknowledged while another holds a slot without a record - model "
+                             "cwstep / C01_barrier_replay_respects_ack_order): history %d: %s" % (h["case"], h["tie_err"][:300]))
             if not getattr(ck, "nofail_detail", None):
                 ck.nofail_detail = {"kind": "flush-protocol", "why": h["tie_err"], "case": h["case"], "nwal": h["nwal"], "nser": h["nser"],
                                     "nmst": h.get("nmst", 1), "pre": h.get("pre", 0), "ops": h["ops"]}
@@ -474,6 +479,7 @@ def main(ck):
     ck.cov["async_replay"] = nasync
     ck.cov["writes_acknowledged_while_a_flush_was_held"] = sum(h["flags"].get("paused_writes", 0) for h in hs)
     ck.cov["torn_prefix_sweep_images"] = sum(h["flags"].get("torn_all", 0) for h in hs)
+    ck.cov["writers_held_at_their_log_append"] = sum(h["flags"].get("held_writers", 0) for h in hs)
     ck.cov["two_measurement_histories"] = sum(1 for h in hs if h.get("nmst", 1) > 1)
     ck.cov["known_finding_images"] = fail_known
     ck.cov["variant_implemented"] = "current (known findings reproduce)" if any(fail_known.values()) else "repaired on the explored domain"
